@@ -81,10 +81,11 @@ type rop struct {
 
 // result is what a reader returned, normalised like item.
 type result struct {
-	ok  bool
-	u   uint64
-	b   []byte
-	err error
+	ok   bool
+	u    uint64
+	b    []byte
+	held []byte // the slice exactly as the reader returned it (ReadN / ZReadN), not copied
+	err  error
 }
 
 func (it *item) readOp() rop { return rop{k: it.k, n: len(it.b), limit: it.limit} }
@@ -327,11 +328,13 @@ func execStream(b *bytex.ReaderX, op rop) (r result) {
 		err = b.Read(p)
 		r.b = p
 	case oRawN:
-		r.b, err = b.ReadN(op.n)
+		var p []byte
+		p, err = b.ReadN(op.n)
+		r.b, r.held = append([]byte(nil), p...), p
 	case oRawZ:
 		var p []byte
 		p, err = b.ZReadN(op.n)
-		r.b = append([]byte(nil), p...)
+		r.b, r.held = append([]byte(nil), p...), p
 	default:
 		panic("harness: kind has no stream reader")
 	}
